@@ -140,6 +140,8 @@ def m_io_future_poll(c, pin, cx):
     ip = c.ip
     ptr = pin.fields[0]
     fut = ip.load(ptr.cell, ptr.path)
+    if isinstance(fut, Opaque) and fut.ty == 'HookFuture' and getattr(ip, 'poll_hook', None):
+        return ip.poll_hook(ip, fut, ptr)
     if not (isinstance(fut, Opaque) and fut.ty == 'IoFuture'):
         raise Inconclusive("poll of %r" % (fut,))
     return poll_ready(ip, do_io(ip, fut))
